@@ -63,7 +63,7 @@ class Seeded:
 
 def scenarios(tier):
     k = 1 if tier == "quick" else 10
-    return [("stream", 220 * k), ("batch", 90 * k)]
+    return [("stream", 320 * k), ("batch", 130 * k)]
 
 
 def gen(rng, scenario, tier):
